@@ -157,6 +157,10 @@ def tlc(
     r.lines = out.splitlines()
     for m in _RE_STATS.finditer(out):
         r.generated, r.states = int(m.group(1)), int(m.group(2))
+    if simulate is not None:
+        ms = re.search(r"The number of states generated: (\d+)", out)
+        if ms:
+            r.generated = r.states = int(ms.group(1))
     m = _RE_DEPTH.search(out)
     if m:
         r.depth = int(m.group(1))
